@@ -405,6 +405,46 @@ pub fn run(args: &Args) -> i32 {
                 process(format!("r{i}big"), &doc, None, &mut w, &mut stats, &[style]);
                 continue;
             }
+            if !focus04 && i % 10 == 7 {
+                // the same anchored source merged more than once in one mapping, with other sources in between: every
+                // occurrence counts at its own position (`<<: *s1, <<: *s2, <<: *s1`; also inside merge sequences)
+                let mut lab = Lab(0);
+                let nsrc = 2 + rng.below(2);
+                let defs: Vec<Node> = (0..nsrc)
+                    .map(|j| {
+                        let mut entries = vec![];
+                        for k in ["a", "b", "c"] {
+                            if rng.chance(2, 3) {
+                                entries.push((sc(k, "p"), lab.next()));
+                            }
+                        }
+                        Node::Map { a: j as u32 + 1, t: String::new(), entries }
+                    })
+                    .collect();
+                let mut entries = vec![];
+                let nm = 2 + rng.below(3);
+                for _ in 0..nm {
+                    if rng.chance(1, 4) {
+                        entries.push((sc(*rng.pick(&["a", "d"]), "p"), lab.next()));
+                    }
+                    let one = |rng: &mut Rng| Node::Alias { a: 1 + rng.below(nsrc) as u32 };
+                    let src = if rng.chance(1, 4) {
+                        let n = 2 + rng.below(2);
+                        Node::Seq { a: 0, t: String::new(), items: (0..n).map(|_| one(&mut rng)).collect() }
+                    } else {
+                        one(&mut rng)
+                    };
+                    entries.push((sc("<<", "p"), src));
+                }
+                let root = Node::Map { a: 0, t: String::new(), entries };
+                let wrapped = Node::Seq { a: 0, t: String::new(), items: vec![Node::Seq { a: 0, t: String::new(), items: defs }, root] };
+                let mut evs = vec![];
+                events_from_node(&wrapped, &mut evs);
+                let t = if rng.chance(1, 2) { render_block(&wrapped, &Names(None)) } else { render_flow(&wrapped, &Names(None)) };
+                stats.nontrivial += 1;
+                emit_all(&mut w, &format!("r{i}rep"), &t, &evs, &mut stats);
+                continue;
+            }
             if focus04 && i % 10 == 3 {
                 // a wide mapping (6..40 distinct keys) in which one or two keys come again, preferably at a position next to a
                 // power of two or a small-capacity boundary (key sets that change representation as they grow)
